@@ -222,10 +222,11 @@ Definition close_local (s1 : st) (h : nat) (id : option Z) : st * list event :=
   | None => set_ready s2 h Closed
   end.
 
-Definition close_body (s : st) (h : nat) : st * list event :=
+(* hs: the association is being set up (COOKIE_WAIT / COOKIE_ECHOED) - an input, like the congestion oracle *)
+Definition close_body (s : st) (h : nat) (hs : bool) : st * list event :=
   let c := getc s h in
   let '(s1, e1) := set_ready s h Closing in
-  match established s1, ch_id c with
+  match established s1 || hs, ch_id c with
   | true, Some i =>
       let s2 := mkSt (established s1) (dc_id s1) (chans s1) (table s1) (queue s1) (rq_queue s1 ++ [i])
                      (rq_request s1) (rq_req_seq s1) (rq_resp_seq s1) in
@@ -233,10 +234,10 @@ Definition close_body (s : st) (h : nat) : st * list event :=
   | _, id => let '(s4, e2) := close_local s1 h id in (s4, e1 ++ e2)
   end.
 
-Definition chan_close (s : st) (h : nat) : st * list event :=
+Definition chan_close (s : st) (h : nat) (hs : bool) : st * list event :=
   match ch_state (getc s h) with
   | Closing | Closed => (s, [])
-  | _ => close_body s h
+  | _ => close_body s h hs
   end.
 
 (* _transmit_reconfig *)
@@ -258,7 +259,7 @@ Fixpoint reset_streams (s : st) (strs : list Z) : st * list event :=
   match strs with
   | [] => (s, [])
   | i :: strs' =>
-      let '(s1, e1) := match tget (table s) i with Some h => chan_close s h | None => (s, []) end in
+      let '(s1, e1) := match tget (table s) i with Some h => chan_close s h false | None => (s, []) end in
       let '(s2, e2) := reset_streams s1 strs' in (s2, e1 ++ e2)
   end.
 
@@ -300,7 +301,9 @@ Fixpoint open_negotiated (s : st) (t : list (Z * nat)) : st * list event :=
 
 Definition set_established (s : st) : st * list event :=
   let s0 := mkSt true (dc_id s) (chans s) (table s) (queue s) (rq_queue s) (rq_request s) (rq_req_seq s) (rq_resp_seq s) in
-  let '(s1, e) := open_negotiated s0 (table s0) in (s1, e ++ [EvSchedFlush]).
+  let '(s1, e) := open_negotiated s0 (table s0) in
+  (* stream resets queued by close() during the handshake are sent now *)
+  (s1, e ++ [EvSchedFlush] ++ match rq_queue s1 with [] => [] | _ => [EvSchedReconfig] end).
 
 (* _set_state(CLOSED) *)
 Fixpoint close_queued (s : st) (q : list (nat * Z * bytes)) : st * list event :=
@@ -363,7 +366,7 @@ Definition recv_user (s : st) (sidv pp : Z) (data : bytes) (text_ok : bool) : st
 Inductive input :=
 | ICreate (neg : bool) (id : option Z) (ordered : bool) (maxrt maxlt : option Z) (label proto : bytes)
 | ISend (h : nat) (pp : Z) (data : bytes)
-| IClose (h : nat)
+| IClose (h : nat) (hs : bool)
 | IThreshold (h : nat) (v : Z)
 | IFlush (oracle : list bool)
 | ITransmitReconfig
@@ -378,7 +381,7 @@ Definition step (s : st) (i : input) : st * list event :=
   match i with
   | ICreate neg id ordered maxrt maxlt label proto => create s neg id ordered maxrt maxlt label proto
   | ISend h pp data => if Nat.ltb h (length (chans s)) then app_send s h pp data else (s, [])
-  | IClose h => if Nat.ltb h (length (chans s)) then chan_close s h else (s, [])
+  | IClose h hs => if Nat.ltb h (length (chans s)) then chan_close s h hs else (s, [])
   | IThreshold h v => if Nat.ltb h (length (chans s)) then (setc s h (with_thr (getc s h) v), []) else (s, [])
   | IFlush oracle => flush s oracle
   | ITransmitReconfig => transmit_reconfig s
@@ -410,7 +413,7 @@ Definition input_of_sx (x : sx) : input :=
   if Z.eqb t 0 then ICreate (sx_b (sx_nth x 1)) (sx_oz (sx_nth x 2)) (sx_b (sx_nth x 3)) (sx_oz (sx_nth x 4))
                             (sx_oz (sx_nth x 5)) (sx_zs (sx_nth x 6)) (sx_zs (sx_nth x 7))
   else if Z.eqb t 1 then ISend (n 1%nat) (sx_z (sx_nth x 2)) (sx_zs (sx_nth x 3))
-  else if Z.eqb t 2 then IClose (n 1%nat)
+  else if Z.eqb t 2 then IClose (n 1%nat) (sx_b (sx_nth x 2))
   else if Z.eqb t 3 then IThreshold (n 1%nat) (sx_z (sx_nth x 2))
   else if Z.eqb t 4 then IFlush (bools (sx_nth x 1))
   else if Z.eqb t 5 then ITransmitReconfig
